@@ -101,8 +101,9 @@ def spec_check(case, impl):
         B = b"#bundle\0" + struct.pack(">Q", 0xdeadbeef0a0b0c0d) + b"".join(struct.pack(">I", len(e)) + e for e in els)
         g = parse_fields(impl)
         if cap >= len(B):
-            want_r, want_b = len(B), hx(B + b"\0" * (cap - len(B)))
-            if g.get("r") != str(want_r) or g.get("b") != want_b:
+            # the bundle at the front of the block; what is left behind it inside the block is the tie's business
+            want_r, want_b = len(B), hx(B)
+            if g.get("r") != str(want_r) or g.get("b", "")[:2 * len(B)] != want_b:
                 return "bundles: subtree_serialize with capacity %d: got r=%s, expected the %d-byte bundle of the three replies" % (cap, g.get("r"), len(B))
         else:
             # does not fit: 0 is returned and nothing outside the block is touched (ASan); the block keeps its size
